@@ -99,3 +99,85 @@ func TestFlapInFlight(t *testing.T) {
 	sysrun.Run(t, "C05", sub, sysrun.Family{Name: "flap", Quick: 150, Thorough: 6000, Gen: flapScenario,
 		NonTrivial: func(c map[string]int64) bool { return c["obligations"] > 0 }}, ck)
 }
+
+// timeoutDuringRetry builds the targeted "alert times out while its notification is being
+// retried" case: a single submission without end time (it times out after resolve_timeout), a
+// flush shortly before the time-out whose first attempts fail, and a success after the end.
+func timeoutDuringRetry(r *rand.Rand) *scen.Scenario {
+	gw := gen.Pick(r, []time.Duration{time.Second, 10 * time.Second})
+	gi := gen.Pick(r, []time.Duration{30 * time.Second, time.Minute})
+	ri := 10 * time.Minute
+	rt := time.Minute
+	gb := []string{"alertname"}
+	cfg := &scen.Config{ResolveTimeout: rt,
+		Route:     &model.RouteSpec{Receiver: "r0", GroupBy: &gb, GroupWait: &gw, GroupInterval: &gi, RepeatInterval: &ri},
+		Receivers: []scen.Receiver{{Name: "r0", Integs: []scen.Integ{{SendResolved: r.Intn(2) == 0}, {SendResolved: r.Intn(2) == 0}}}}}
+	s := &scen.Scenario{Config: cfg, Duration: 20 * time.Minute}
+	t0 := time.Duration(1+r.Intn(30))*time.Second + time.Duration(1+r.Intn(998))*time.Millisecond
+	l := model.Labels{"alertname": "A", "sev": "crit"}
+	l2 := model.Labels{"alertname": "A", "sev": "warn"}
+	far := 30 * time.Minute
+	// a long-lived companion keeps the group firing; the alert under test is sent once without end time
+	s.Ops = append(s.Ops, scen.Op{At: t0, Kind: "alerts", Alerts: []scen.PostSpec{{Labels: l2, EndOff: &far}}})
+	k := 1 + r.Intn(3)
+	tick := t0 + gw + time.Duration(k)*gi // a flush tick
+	// submitted so that it ends (now+rt) a little after that tick; it also makes the group change
+	// so that the flush has something to notify
+	lead := gen.Pick(r, []time.Duration{2 * time.Second, 5 * time.Second, 900 * time.Millisecond})
+	post := tick + lead - rt
+	if post <= t0 {
+		post = t0 + time.Millisecond
+	}
+	s.Ops = append(s.Ops, scen.Op{At: post, Kind: "alerts", Alerts: []scen.PostSpec{{Labels: l}}})
+	// both integrations fail from just before the tick until after the alert's end
+	s.Faults = append(s.Faults,
+		scen.Fault{Receiver: "r0", Idx: 0, From: tick - time.Second, To: tick + lead + 2*time.Second, Kind: "recoverable"},
+		scen.Fault{Receiver: "r0", Idx: 1, From: tick - time.Second, To: tick + lead + gen.Pick(r, []time.Duration{time.Second, 4 * time.Second}), Kind: gen.Pick(r, []string{"recoverable", "slow"}), Delay: 300 * time.Millisecond})
+	return s
+}
+
+func TestTimeoutDuringRetry(t *testing.T) {
+	sub := vf.Cur().Sub("timeout-during-retry", fmt.Sprintf(rule, "targeted: an alert without end time reaches its time-out while the notification that lists it as firing is being retried against a failing receiver; status must stay frozen at flush time (no resolved alert with send_resolved off)"), 20)
+	sysrun.Run(t, "C05", sub, sysrun.Family{Name: "tdr", Quick: 120, Thorough: 5000, Gen: timeoutDuringRetry,
+		NonTrivial: func(c map[string]int64) bool { return c["firing_listed"] > 0 }}, checkers)
+}
+
+// outageDuringResolve: the receiver is told an alert fires, then is down (recoverable errors or
+// hangs) for several whole flushes during which the alert resolves, then recovers: the resolved
+// notification is still owed and must arrive once deliveries are accepted again.
+func outageDuringResolve(r *rand.Rand) *scen.Scenario {
+	gw := gen.Pick(r, []time.Duration{0, time.Second, 10 * time.Second})
+	gi := gen.Pick(r, []time.Duration{5 * time.Second, 30 * time.Second, time.Minute})
+	ri := gen.Pick(r, []time.Duration{10 * time.Minute, time.Hour})
+	gb := []string{"alertname"}
+	nInt := 1 + r.Intn(2)
+	rc := scen.Receiver{Name: "r0"}
+	for i := 0; i < nInt; i++ {
+		rc.Integs = append(rc.Integs, scen.Integ{SendResolved: true})
+	}
+	cfg := &scen.Config{ResolveTimeout: 5 * time.Minute,
+		Route:     &model.RouteSpec{Receiver: "r0", GroupBy: &gb, GroupWait: &gw, GroupInterval: &gi, RepeatInterval: &ri},
+		Receivers: []scen.Receiver{rc}}
+	s := &scen.Scenario{Config: cfg, Duration: 30 * time.Minute}
+	l := model.Labels{"alertname": "A", "sev": "crit"}
+	t0 := time.Duration(1+r.Intn(30))*time.Second + time.Duration(1+r.Intn(998))*time.Millisecond
+	far := 40 * time.Minute
+	zero := time.Duration(0)
+	s.Ops = append(s.Ops, scen.Op{At: t0, Kind: "alerts", Alerts: []scen.PostSpec{{Labels: l, EndOff: &far}}})
+	if r.Intn(2) == 0 { // a companion that keeps firing
+		s.Ops = append(s.Ops, scen.Op{At: t0 + time.Millisecond, Kind: "alerts", Alerts: []scen.PostSpec{{Labels: model.Labels{"alertname": "A", "sev": "warn"}, EndOff: &far}}})
+	}
+	outFrom := t0 + gw + 2*gi + gi/3
+	outLen := gen.Pick(r, []time.Duration{25 * time.Second, 70 * time.Second, 3 * time.Minute})
+	for i := 0; i < nInt; i++ {
+		s.Faults = append(s.Faults, scen.Fault{Receiver: "r0", Idx: i, From: outFrom, To: outFrom + outLen, Kind: gen.Pick(r, []string{"recoverable", "recoverable", "hang"})})
+	}
+	s.Ops = append(s.Ops, scen.Op{At: outFrom + gen.Pick(r, []time.Duration{time.Second, outLen / 3}) + time.Millisecond, Kind: "alerts", Alerts: []scen.PostSpec{{Labels: l, EndOff: &zero}}})
+	return s
+}
+
+func TestOutageDuringResolve(t *testing.T) {
+	sub := vf.Cur().Sub("outage-during-resolve", fmt.Sprintf(rule, "targeted: the receiver is down for several whole flushes (recoverable errors or hangs until the flush deadline) while an alert it was told about resolves; the resolved notification must arrive after the outage"), 20)
+	sysrun.Run(t, "C05", sub, sysrun.Family{Name: "outage", Quick: 120, Thorough: 5000, Gen: outageDuringResolve,
+		NonTrivial: func(c map[string]int64) bool { return c["resolutions_owed"] > 0 }}, checkers)
+}
